@@ -6,6 +6,9 @@ import sys
 import numpy as np
 
 
+SNAPS = []
+
+
 def main():
     cfg = json.loads(sys.argv[1])
     import faulthandler
@@ -82,7 +85,7 @@ def main():
             return np.zeros(x.size) - np.log(64.0)
 
     model = {"uniform": G, "constrained": Constrained, "gaussprior": GaussPrior, "nocheck": NoCheck, "floor": Floor, "cut": Cut}[cfg.get("model", "uniform")]()
-    snaps = []
+    snaps = SNAPS
 
     def reeval(ns, s):
         """Every saved proposal re-evaluated at every stored sample WITHOUT the library's own batching: the torch flows
@@ -215,4 +218,4 @@ if __name__ == "__main__":
         main()
     except Exception as e:
         import traceback
-        json.dump({"error": type(e).__name__, "trace": traceback.format_exc()[-2500:]}, sys.stdout)
+        json.dump({"error": type(e).__name__, "trace": traceback.format_exc()[-2500:], "snaps": SNAPS}, sys.stdout)
